@@ -1,7 +1,7 @@
 SPECIFICATION Spec
 CONSTANTS
   Heaps <- F_ChainHeaps
-  Ufuncs <- AllUfuncs
+  Ufuncs <- F_ChainUfuncs
   Methods <- AllMethods
   DKinds <- Q_DKinds
   AsDtypes <- Q_AsDtypes
